@@ -1,7 +1,7 @@
 SPECIFICATION Spec
 CONSTANTS
-  MaxOps = 2
-  MaxStmts = 2
+  MaxOps = 1
+  MaxStmts = 3
   UniqLen = 0
   Devs = {}
 INVARIANTS Agree Valid
